@@ -1,7 +1,7 @@
 """Which unit modules decide which property, and the per-property scope text."""
 PROPS = {
-    "C07": ["u_hier", "u_apiwrap", "u_indexsets"],
-    "C08": ["u_apiwrap"],
+    "C07": ["u_hier", "u_apiwrap", "u_indexsets", "u_limits"],
+    "C08": ["u_apiwrap", "u_limits"],
     "C02": ["u_tables"],
     "C15": ["u_dream"],
     "C19": ["u_graddesc"],
